@@ -114,6 +114,7 @@ structure DState where
   b : Raw
   w : World
   live : List (Nat × Nat) := []     -- blocks allocated and not yet freed, over the whole scenario
+  tainted : Bool := false           -- an unlawful hasher/eq was active at some point of this scenario
 
 /-- Apply the allocator events of one operation to the live-block multiset (oldest event first). -/
 def applyLive (live : List (Nat × Nat)) (log : List Ev) : List (Nat × Nat) :=
@@ -165,7 +166,7 @@ def parseEnv (toks : List String) (st : DState) : DState :=
     | "afail" => { p with afail := optNat v }
     | "afrom" => { p with afrom := optNat v }
     | _ => p) st.envp
-  { st with envp := p }
+  { st with envp := p, tainted := st.tainted || p.hashMode != "plan" || p.eqMode != "law" }
 
 def parsePlan (toks : List String) (st : DState) : DState :=
   { st with plan := toks.foldl (fun m tok =>
